@@ -23,9 +23,9 @@ PROFILES = {"C04": "simkit.profiles.c04", "C05": "simkit.profiles.c05", "C16": "
 
 # runs per tier (fixed counts; the wall cap only stops submission and is reported when it bites)
 TIERS = {
-    "C04": {"quick": (6000, 75), "thorough": (160000, 1500)},
-    "C05": {"quick": (12000, 75), "thorough": (400000, 1500)},
-    "C16": {"quick": (8000, 75), "thorough": (240000, 1500)},
+    "C04": {"quick": (6000, 150), "thorough": (200000, 2400)},
+    "C05": {"quick": (40000, 150), "thorough": (1200000, 2400)},
+    "C16": {"quick": (30000, 150), "thorough": (900000, 2400)},
 }
 MAX_MINIMISED = int(os.environ.get("VERIF_MAX_MIN", "10"))
 
@@ -66,8 +66,14 @@ def write_replay(prop, seed, tier, cfg, ops, violation, sig, suffix=""):
            "config": {k: v for k, v in cfg.items() if k in ("strict_fp", "seed", "index", "tier", "run_class")},
            "ops": ops,
            "observed": {k: v for k, v in violation.items() if k not in ("property",)}}
-    with open(path, "w") as f:
-        json.dump(doc, f, indent=1, default=str)
+    head = {k: v for k, v in doc.items() if k not in ("ops", "observed")}
+    with open(path, "w") as f:      # one operation per line: the file is meant to be read by people too
+        f.write("{\n")
+        for k, v in head.items():
+            f.write(" %s: %s,\n" % (json.dumps(k), json.dumps(v, default=str)))
+        f.write(' "ops": [\n')
+        f.write(",\n".join("  " + json.dumps(o, default=str) for o in doc["ops"]))
+        f.write('\n ],\n "observed": %s\n}\n' % json.dumps(doc["observed"], default=str))
     return path
 
 
@@ -150,7 +156,8 @@ def main():
         print("DIGEST %s runs=%d" % (merged["batch_digest"], merged["runs"]))
         return 0 if not merged["errors"] else 3
     n_reg, reg_viol = run_regressions(profile, prop)
-    merged = kernel.run_batch(profile, a.seed, a.tier, n_runs, a.jobs, wall_cap, stop_on_first=a.first)
+    merged = kernel.run_batch(profile, a.seed, a.tier, n_runs, a.jobs, wall_cap, stop_on_first=a.first,
+                              chunk=max(20, n_runs // (max(a.jobs, 1) * 100)))
     if merged["errors"]:
         for e in merged["errors"][:5]:
             print("HARNESS-ERROR seed=%s index=%s %s" % (e["seed"], e["index"], e["error"]))
